@@ -270,6 +270,76 @@ Board mate_candidate()
     }
 }
 
+// sparse-material mates: K + {NN, BN, BB, R, Q, ...} against a (nearly) bare king, kept only if a mate in one exists
+Board sparse_mate_in_one()
+{
+    static const char* SETS[] = {"NN", "NN", "BN", "BB", "R", "Q", "RN", "NNP", "BP", "NP", "QN", "RB"};
+    for (;;)
+    {
+        Board b;
+        b.stm = RNG->below(2);
+        int us = b.stm, them = 1 - us;
+        int kf = RNG->below(2) ? (RNG->below(2) ? 0 : 7) : int(RNG->below(8));
+        int kr = RNG->below(2) ? (RNG->below(2) ? 0 : 7) : int(RNG->below(8));
+        if (RNG->below(3)) kr = RNG->below(2) ? 0 : 7;
+        int ksq = orc::sq_of(kf, kr);
+        gen::put(b, ksq, orc::make_pc(them, orc::KING));
+        auto near = [&](int dist) {
+            for (;;)
+            {
+                int f = kf + int(RNG->below(2 * dist + 1)) - dist, r = kr + int(RNG->below(2 * dist + 1)) - dist;
+                if (orc::on_board(f, r)) return orc::sq_of(f, r);
+            }
+        };
+        gen::put(b, near(2), orc::make_pc(us, orc::KING));
+        const char* set = SETS[RNG->below(12)];
+        for (const char* p = set; *p; ++p)
+        {
+            int kind = *p == 'N' ? orc::KNIGHT : *p == 'B' ? orc::BISHOP : *p == 'R' ? orc::ROOK : *p == 'Q' ? orc::QUEEN : orc::PAWN;
+            gen::put(b, near(3), orc::make_pc(us, kind));
+        }
+        if (RNG->below(4) == 0) gen::put(b, near(2), orc::make_pc(them, RNG->below(2) ? orc::PAWN : orc::KNIGHT));
+        if (b.king_sq(0) < 0 || b.king_sq(1) < 0 || !b.retro_legal() || !gen::promotions_stay_in_domain(b)) continue;
+        if (!orc::mating_moves_in_one(b).empty()) return b;
+    }
+}
+
+// roots where the side to move can create a one-move mate THREAT against a defender who is not in check, has many
+// legal moves and at least one defence: pruning that hides the few defences turns the threat into a false mate claim
+bool threat_root(Board& out)
+{
+    for (int tries = 0; tries < 400; ++tries)
+    {
+        Board b = mate_candidate();
+        // give the defender more material so that he has many moves
+        int them = 1 - b.stm;
+        for (int i = 3 + RNG->below(5); i > 0; --i) gen::put(b, RNG->below(64), orc::make_pc(them, gen::rand_kind(*RNG)));
+        for (int i = RNG->below(3); i > 0; --i) gen::put(b, RNG->below(64), orc::make_pc(b.stm, gen::rand_kind(*RNG)));
+        if (!b.retro_legal() || !gen::promotions_stay_in_domain(b) || !orc::mating_moves_in_one(b).empty()) continue;
+        for (const orc::Move& m : b.legal())
+        {
+            Board d = b.after(m);
+            if (d.in_check(d.stm)) continue;
+            std::vector<orc::Move> dl = d.legal();
+            if (dl.size() <= 12) continue;
+            Board n = d.after_null();
+            if (orc::mating_moves_in_one(n).empty()) continue;
+            // at least one defence must exist (otherwise the claim would be true)
+            bool defence = false;
+            for (const orc::Move& r : dl)
+                if (orc::mating_moves_in_one(d.after(r)).empty())
+                {
+                    defence = true;
+                    break;
+                }
+            if (!defence) continue;
+            out = b;
+            return true;
+        }
+    }
+    return false;
+}
+
 std::string ctx_stop(const GoSpec& g, const RunResult& r)
 {
     if (g.stop_at < 0) return "none";
@@ -366,7 +436,22 @@ int main(int argc, char** argv)
 
     for (long i = 0; i < n; ++i)
     {
-        Board B = (PROP == "C08" && i % 3 != 2) ? mate_candidate() : random_root(int(i));
+        Board B;
+        if (PROP == "C08")
+        {
+            int sel = int(i % 6);
+            if (sel == 0 || sel == 1) B = mate_candidate();
+            else if (sel == 2) B = sparse_mate_in_one();
+            else if (sel == 3 || sel == 4)
+            {
+                if (threat_root(B)) rec.count("roots:mate-threat-with-few-defences");
+                else B = mate_candidate();
+            }
+            else B = random_root(int(i));
+            if (sel == 2) rec.count("roots:sparse-material-mate-in-one");
+        }
+        else
+            B = random_root(int(i));
         std::vector<orc::Move> legal = B.legal();
         std::string fen = B.fen();
         Position P(fen);
@@ -389,6 +474,7 @@ int main(int argc, char** argv)
         GoSpec g;
         int kind = int(rng.below(PROP == "C09" ? 8 : 10));
         if (PROP == "C08") kind = rng.below(4) ? 0 : 7;
+        bool threat = PROP == "C08" && (i % 6 == 3 || i % 6 == 4);
         if (PROP != "C08" && rng.below(5) == 0) kind = 100;  // limit combinations
         switch (kind)
         {
@@ -466,6 +552,7 @@ int main(int argc, char** argv)
             break;
         }
         }
+        if (threat) g.depth = 3 + int(rng.below(3));
         // clock-only searches that would need real minutes are skipped by construction (<= 2 s clocks)
         set_cur(B, g, table);
         RunResult r = run_go(*rig, P, B, g, CAP);
